@@ -333,7 +333,7 @@ pub fn run(tier: Tier, seed: u64) -> Report {
         tier,
         seed,
         "exploration",
-        "generated payloads: lengths from a boundary-heavy distribution (1..64, a dense sweep 3800..4200 around SQLite's overflow threshold, k*4096 +-{0,1,2,40}, powers of two +-1, round multiples k*{1000, 10^4, 65536, 10^5, 10^6, 2^20} +-{0,1}, random up to 1 MiB quick / 32 MiB thorough, and limit-1 / limit exactly), eight byte classes (zeros, 0xFF, random, numeric-looking text, UTF-8, invalid UTF-8, embedded NULs, id-like text), generated chunk splittings; versions and snapshots; memory and SQLite; through the library, the in-process HTTP service (payload chunks) and a real socket (Content-Length and chunked, generated write sizes). Round-trip oracle: bytes, version id and parent id read back equal what was uploaded/acknowledged - right away, after reopening the database, and after later uploads. Non-trivial: longer than one page, or >=2 chunks, or a byte class other than ASCII text; distinct by (length, class, chunk bucket, entry, backend, kind).",
+        "generated payloads: lengths from a boundary-heavy distribution (1..64, a dense sweep 3800..4200 around SQLite's overflow threshold, k*4096 +-{0,1,2,40}, powers of two +-1, round multiples k*{1000, 10^4, 65536, 10^5, 10^6, 2^20} +-{0,1}, random up to 1 MiB quick / 32 MiB thorough, and limit-1 / limit exactly), thirteen byte classes (zeros, 0xFF, random, numeric-looking text, UTF-8, invalid UTF-8, embedded NULs, id-like text, gzip/zlib look-alikes, common prefix, framing tails, near-identical siblings); chains whose consecutive payloads differ by two swapped bytes 1..130 apart, one flipped bit or a rotation, each version and snapshot re-read after every later request, generated chunk splittings; versions and snapshots; memory and SQLite; through the library, the in-process HTTP service (payload chunks) and a real socket (Content-Length and chunked, generated write sizes). Round-trip oracle: bytes, version id and parent id read back equal what was uploaded/acknowledged - right away, after reopening the database, and after later uploads. Non-trivial: longer than one page, or >=2 chunks, or a byte class other than ASCII text; distinct by (length, class, chunk bucket, entry, backend, kind).",
     );
     rep.assume("the 1..100 MiB range is sampled, densely only near structural boundaries; socket cases are bounded to 8 MiB");
     rep.assume("a socket exchange that ends without a status line is inconclusive for that case, never a violation");
@@ -344,6 +344,19 @@ pub fn run(tier: Tier, seed: u64) -> Report {
     }
     let r = engine::explore("C06", "payload", seed, tier.pick(8000, 60_000), || p6(tier), check);
     rep.absorb("round-trip", r);
+    if rep.failed() {
+        return rep;
+    }
+    // near-identical payloads one after the other (parent and child, snapshot and next snapshot):
+    // same length, differing by two swapped bytes 1..130 apart, one flipped bit, or a rotation
+    let r = engine::enumerate("C06", "history", sibling_cases(tier), |hc: &crate::props::seq::HCase, st| {
+        let mut or = crate::hist::Oracles::default();
+        or.c02 = true;
+        or.c07 = true;
+        or.c11 = true;
+        crate::hist::run_history(&hc.case, hc.backend, hc.via, or, st)
+    });
+    rep.absorb("near-identical-siblings", r);
     if rep.failed() {
         return rep;
     }
@@ -370,12 +383,58 @@ pub fn run(tier: Tier, seed: u64) -> Report {
     rep
 }
 
+/// Chains whose consecutive payloads are members of one "sibling" family (case.rs class 12).
+fn sibling_cases(tier: Tier) -> Vec<crate::props::seq::HCase> {
+    use crate::case::{Case, IdRef, Op};
+    let mut out = vec![];
+    let lens: &[u32] = if tier == Tier::Quick { &[40, 300, 5000] } else { &[2, 33, 40, 64, 300, 4096, 5000, 70_000] };
+    for backend in [Backend::Mem, Backend::Sqlite] {
+        for (li, &len) in lens.iter().enumerate() {
+            for via in [Via::Lib, Via::Http] {
+                if via == Via::Http && li != 1 {
+                    continue;
+                }
+                // 12 edits per chain, all 256 edits over the chains of one length
+                for group in 0..22u32 {
+                    let fam = (li as u32 * 64 + group) << 8;
+                    let spec = |e: u32| BytesSpec { len, class: 12, seed: fam | (e & 0xFF) };
+                    let mut ops = vec![Op::AddVersion { c: 0, parent: IdRef::Nil, data: spec(0) }];
+                    for k in 0..12u32 {
+                        let e = (group * 12 + k) % 256;
+                        ops.push(Op::AddVersion { c: 0, parent: IdRef::Latest(0), data: spec(e) });
+                        if k % 3 == 1 {
+                            ops.push(Op::AddSnapshot { c: 0, version: IdRef::Latest(0), data: spec(e + 1) });
+                        }
+                        if k % 3 == 2 {
+                            // back to the unedited member: equal to the grandparent's bytes
+                            ops.push(Op::AddVersion { c: 0, parent: IdRef::Latest(0), data: spec(0) });
+                            ops.push(Op::AddSnapshot { c: 0, version: IdRef::Latest(0), data: spec(e) });
+                        }
+                    }
+                    ops.push(Op::Reopen);
+                    ops.push(Op::GetSnapshot { c: 0 });
+                    out.push(crate::props::seq::HCase { backend, via, case: Case { cfg: Cfg::default(), salt: 6, nclients: 1, ops } });
+                }
+            }
+        }
+    }
+    out
+}
+
 pub fn replay(kind: &str, case_json: &Value, st: &mut Stats) -> CheckResult {
     let bad = |e: serde_json::Error| Fail::Inconclusive(format!("bad replay file: {e}"));
     match kind {
         "payload" => check(&serde_json::from_value(case_json.clone()).map_err(bad)?, st),
         "limit" => check_limit(&serde_json::from_value(case_json.clone()).map_err(bad)?, false, st),
         "interleaved" => check_interleaved(&serde_json::from_value(case_json.clone()).map_err(bad)?, st),
+        "history" => {
+            let hc: crate::props::seq::HCase = serde_json::from_value(case_json.clone()).map_err(bad)?;
+            let mut or = crate::hist::Oracles::default();
+            or.c02 = true;
+            or.c07 = true;
+            or.c11 = true;
+            crate::hist::run_history(&hc.case, hc.backend, hc.via, or, st)
+        }
         _ => Err(Fail::Inconclusive(format!("unknown replay kind {kind}"))),
     }
 }
